@@ -1,8 +1,8 @@
 package graph
 
 import (
-	"strconv"
 	"encoding/json"
+	"strconv"
 	"strings"
 
 	"github.com/vektah/gqlparser/v2/ast"
@@ -11,7 +11,10 @@ import (
 	"github.com/99designs/gqlgen/zzsym"
 )
 
-func Setup_C04_faults() { Setup_C01_exec(); c04Arg = mustLoad(`{ me { id a: echo(o: "boom") b: echo(s: "x") best { id } } }`) }
+func Setup_C04_faults() {
+	Setup_C01_exec()
+	c04Arg = mustLoad(`{ me { id a: echo(o: "boom") b: echo(s: "x") best { id } } }`)
+}
 
 var c04Arg *ast.QueryDocument
 
